@@ -582,7 +582,9 @@ def _run_index(mod, reg, uni, fnode, loop, var, direction, ints, extra_assume, t
                     if o.kind in ("fall", "continue"):
                         v1 = o.st.lookup(var)
                         if not isinstance(v1, VInt):
-                            vcs.append((o.st.pc, z3.BoolVal(False), "index variable no longer an integer"))
+                            # the index now holds the result of something the executor does not model (a helper call, an
+                            # unknown attribute): not a refutation -- the obligation is undecided and the replayer looks for a hang
+                            vcs.append((o.st.pc, None, "index variable is assigned from a value the executor does not follow"))
                             continue
                         t1 = ops.int_term(v1)
                         goal = t1 < v0 if direction in ("dec", "dec-to-zero") else t1 > v0
@@ -598,6 +600,9 @@ def _run_index(mod, reg, uni, fnode, loop, var, direction, ints, extra_assume, t
         for key, L in sorted(ex.len_consts.items()):
             ok = True
             for pc, goal, note, t1 in vcs:
+                if goal is None:
+                    ok = False
+                    break
                 r = solve.check_vc(pc, z3.And(goal, t1 <= L + 1), timeout_ms, want_model=False, use_cvc5=False)
                 secs += r.seconds
                 if r.status != "proved":
@@ -608,8 +613,13 @@ def _run_index(mod, reg, uni, fnode, loop, var, direction, ints, extra_assume, t
         return "unknown", f"no stable length bounds `{var}` from above on every path back to the head", secs, len(vcs)
     vcs = [v_[:3] for v_ in vcs]
     for pc, goal, note in vcs:
+        if goal is None:
+            return "unknown", note, secs, len(vcs)
         r = solve.check_vc(pc, goal, timeout_ms, want_model=True, use_cvc5=False)
         secs += r.seconds
+        if r.status == "refuted" and ex.abstracted:
+            # the executor replaced something on the way by an arbitrary value: the counterexample may be an artefact of that
+            return "unknown", (note or f"a path back to the loop head may not move `{var}`") + f" [abstracted: {sorted(set(ex.abstracted))[:3]}]", secs, len(vcs)
         if r.status == "refuted":
             w = ""
             if r.model is not None:
